@@ -41,6 +41,18 @@ def dispatch (cfg : String) (inp : List String) (obs : List String) : Option Ver
   | some "Y" => runRoundTrip cfg inp obs
   | _ => none
 
+/-- projection of an observation to the tokens a property's correspondence looks at.
+`keep` = comma-separated token prefixes ("" = everything); "||" separators always stay.
+For the register domain, "regs" keeps the registers and the queue count of every step (drops callback values). -/
+def project (keep : String) (dom : Option String) (toks : List String) : List String :=
+  if keep.isEmpty then toks else
+  let pre := keep.splitOn ","
+  if dom == some "R" then
+    if pre.contains "regs" then toks.map (fun t => ",".intercalate ((t.splitOn ",").take 2)) else toks
+  else if dom == some "P" || dom == some "P8" || dom == some "P9" then
+    toks.filter (fun t => t == "||" || pre.any (fun p => t.startsWith p))
+  else toks
+
 structure Stats where
   cases : Nat := 0
   nontrivial : Nat := 0
@@ -60,27 +72,30 @@ def flushPending (st : Stats) : IO Stats := do
     pure { st with unparsed := st.unparsed + 1, pending := none }
   | none => pure st
 
-partial def loop (cfg : String) (h : IO.FS.Stream) (st : Stats) : IO Stats := do
+partial def loop (cfg keep : String) (h : IO.FS.Stream) (st : Stats) : IO Stats := do
   let line ← h.getLine
   if line.isEmpty then return (← flushPending st)
   let line := (line.dropEndWhile (fun c => c == '\n' || c == '\r')).toString
-  if line.isEmpty then loop cfg h st else
+  if line.isEmpty then loop cfg keep h st else
   if line.startsWith "X FAULT" then
     IO.println s!"FAULT\t{line}"
-    loop cfg h { st with faults := st.faults + 1, pending := none }
+    loop cfg keep h { st with faults := st.faults + 1, pending := none }
   else
     let (c, o) := splitCase line
     match dispatch cfg (words c) (words o) with
     | none =>
       let st ← flushPending st
-      loop cfg h { st with pending := some line }
+      loop cfg keep h { st with pending := some line }
     | some v =>
       let st ← flushPending st
       let hsh := hash c
       let fresh := v.nontrivial && !st.seen.contains hsh
       let mut st := { st with cases := st.cases + 1, nontrivial := st.nontrivial + (if fresh then 1 else 0),
                               seen := if fresh then st.seen.insert hsh else st.seen }
-      if v.modelObs != v.implObs.getD (" ".intercalate (words o)) then
+      let dom := (words c).head?
+      let implToks := project keep dom (words (v.implObs.getD o))
+      let modelToks := project keep dom (words v.modelObs)
+      if modelToks != implToks then
         IO.println s!"DIFF\t{c}\t{o}\t{v.modelObs}"
         st := { st with diffs := st.diffs + 1 }
       if !v.rejects.isEmpty then
@@ -88,14 +103,15 @@ partial def loop (cfg : String) (h : IO.FS.Stream) (st : Stats) : IO Stats := do
         st := { st with rejects := st.rejects + 1 }
       let tags := v.tags.foldl (fun m t => m.insert t (m.getD t 0 + 1)) st.tags
       let samples := if st.samples.length < 3 ∧ v.nontrivial ∧ st.cases % 997 == 1 then st.samples ++ [line] else st.samples
-      loop cfg h { st with tags := tags, samples := samples }
+      loop cfg keep h { st with tags := tags, samples := samples }
 
 def jsonStr (s : String) : String :=
   "\"" ++ String.join (s.toList.map (fun c => if c == '"' then "\\\"" else if c == '\\' then "\\\\" else if c.toNat < 32 then " " else c.toString)) ++ "\""
 
 def main : IO Unit := do
   let cfg := (← IO.getEnv "VERIF_CFG").getD "A"
-  let st ← loop cfg (← IO.getStdin) {}
+  let keep := (← IO.getEnv "VERIF_KEEP").getD ""
+  let st ← loop cfg keep (← IO.getStdin) {}
   let tags := ",".intercalate (st.tags.toList.map (fun (k, v) => s!"{jsonStr k}:{v}"))
   let samples := ",".intercalate (st.samples.map jsonStr)
   IO.println s!"SUMMARY\t\{\"cases\":{st.cases},\"nontrivial\":{st.nontrivial},\"diffs\":{st.diffs},\"rejects\":{st.rejects},\"faults\":{st.faults},\"unparsed\":{st.unparsed},\"tags\":\{{tags}},\"samples\":[{samples}]}"
